@@ -104,6 +104,7 @@ def run(prop, tier):
         res = core.run_slices(exe87, ['--suite', prop, '--tier', tier], timeout=600, result=res, tag='-O0 -mfpmath=387')
     exec_ = build(prop, '-O2', fresh=False, cc='clang')
     res = core.run_slices(exec_, ['--suite', prop, '--tier', tier], timeout=1500 if tier == 'thorough' else 600, result=res, tag='clang -O2')
+    res = core.run_slices(exe, ['--suite', prop, '--tier', 'quick' if tier == 'thorough' else tier, '--callmode', '1'], timeout=900, result=res, tag='calls through (name)(...)')
     NOMACRO = ('-U__BYTE_ORDER__', '-U__ORDER_LITTLE_ENDIAN__', '-U__ORDER_BIG_ENDIAN__', '-U__ORDER_PDP_ENDIAN__', '-Wno-builtin-macro-redefined')
     exem = build(prop, '-O2', fresh=False, defs=NOMACRO, tag='-nomacro')
     res = core.run_slices(exem, ['--suite', prop, '--tier', tier], timeout=1500 if tier == 'thorough' else 600, result=res, tag='gcc -O2, byte-order macros undefined')
